@@ -451,6 +451,9 @@ def value_getattr(it, ctx, o, name):
             return 0
         if name == "T":
             return o
+    if isinstance(o, npspec.SigVal):
+        if name == "parameters":
+            return {k: k for k in o.params}
     if isinstance(o, SliceVal):
         if name == "start":
             return o.lo
